@@ -133,7 +133,10 @@ KIND_OF = {'initialization_problem': 'init', 'possible_initialization_problem': 
 
 OTHER_PROGRAM = "print(zq)\nif zc:\n    zp = 1\nprint(zp)\nzu = 2\n"      # has one issue of every judged kind
 ROUTES = ['tifa_analysis()', 'tifa_analysis(other) first', 'tifa_analysis(code) while another submission is loaded',
-          'tifa_analysis(); tifa_analysis(other); tifa_analysis() again']
+          'tifa_analysis(); tifa_analysis(other); tifa_analysis() again',
+          'as part 1 of a sectioned submission of two files, below an import of the other file']
+SECTION_PREFIX = "pre = 0\nprint(pre)\n##### Part 1\nimport helper\n"
+SECTION_SHIFT = 4
 
 
 # the two variables under other names: short ones, ones that are pieces of words pedal uses internally, look-alikes
@@ -171,6 +174,7 @@ def check_exact(ctx, block, route=0, names=('x', 'y')):
         ctx.mark_nontrivial(code)
     cmds.clear_report()
     ctx.step(ROUTES[route])
+    shift = 0
     if route == 0:
         cmds.contextualize_report(code)
         t = tifa_analysis()
@@ -183,11 +187,21 @@ def check_exact(ctx, block, route=0, names=('x', 'y')):
         cmds.contextualize_report(OTHER_PROGRAM)
         tifa_analysis()
         t = tifa_analysis(code)
-    else:
+    elif route == 3:
         cmds.contextualize_report(code)
         tifa_analysis()
         tifa_analysis(OTHER_PROGRAM)
         t = tifa_analysis()
+    else:
+        from pedal.core.submission import Submission
+        from pedal.source.sections import separate_into_sections, next_section
+        full = SECTION_PREFIX + code
+        cmds.contextualize_report(Submission(files={'answer.py': full, 'helper.py': "HV = 1\nunused_in_helper = 2\n"},
+                                             main_file='answer.py', main_code=full))
+        separate_into_sections(independent=True)
+        next_section()
+        t = tifa_analysis()
+        shift = SECTION_SHIFT
     if not t.success:
         ctx.fail({'symptom': 'tifa internal failure'}, program=code, error=repr(t.error)[:100])
         return
@@ -196,13 +210,18 @@ def check_exact(ctx, block, route=0, names=('x', 'y')):
     for label in list(KIND_OF) + ['unused_variable']:
         via = [(i.location.line, i.fields.get('name')) for i in get_issues(label)]
         direct = [(i.location.line, i.fields.get('name')) for i in t.issues.get(label, [])]
+        if route == 4:
+            via = [v for v in via if v[1] in ('x', 'y')]
+            direct = [v for v in direct if v[1] in ('x', 'y')]
         if via != direct:
             ctx.fail({'symptom': 'get_issues() differs from the issues of the analysis', 'label': label,
                       'route': ROUTES[route]}, program=code, via_get_issues=via, analysis=direct)
     got = {}
     for label, kind in KIND_OF.items():
         for i in t.issues.get(label, []):
-            got[(i.location.line, inv.get(i.fields['name'], i.fields['name']))] = kind
+            if shift and i.fields['name'] not in fwd.values():
+                continue         # (issues about the surrounding file's own names are not this program's)
+            got[(i.location.line - shift, inv.get(i.fields['name'], i.fields['name']))] = kind
     for key, kind in expect.items():
         ctx.evaluated()
         g = got.get(key, 'none')
